@@ -104,6 +104,16 @@ func newRichDoc(c *fw.Case) *richDoc {
 			}
 		}
 		row["tags"] = tags
+		// an array of arrays of objects inside the row
+		grid := make([]any, c.Intn(3))
+		for i := range grid {
+			line := make([]any, c.Intn(3))
+			for j := range line {
+				line[j] = map[string]any{"e": float64(c.Intn(7)), "f": gen.Pick(c.R, []any{"p", "q"})}
+			}
+			grid[i] = line
+		}
+		row["grid"] = grid
 		row["obj"].(map[string]any)["tags"] = []any{1.0, 1.0, 2.0, 3.0}
 	}
 	u := gen.RandTable(c.R, gen.TableSpec{Name: "u1", MaxRows: 4, NumCols: 1, StrCols: 1, StrStyle: gen.Plain, ColPrefix: "u"})
@@ -342,6 +352,17 @@ var richForms = []richForm{
 	{"plain.fuse-first", false, false, func(c *fw.Case, d *richDoc, vf string) string {
 		// FUSE of a document object in first position, followed by further columns
 		return gen.Pick(c.R, []string{"SELECT FUSE(obj), rid FROM t1", "SELECT FUSE(obj), * FROM t1", "SELECT FUSE(obj), n1 AS k, s1 FROM t1 WHERE n1 >= 0", "SELECT FUSE(`<-meta`), rid FROM t1", "SELECT FUSE(obj), (SELECT e FROM arr) AS es FROM t1"})
+	}},
+	{"plain.exists-grid", false, false, func(c *fw.Case, d *richDoc, vf string) string {
+		// EXISTS / IN / a select-list subquery over an array of arrays (row-scoped or of the document)
+		return gen.Pick(c.R, []string{"SELECT rid FROM t1 WHERE EXISTS (SELECT e FROM grid WHERE e > 2)", "SELECT rid FROM t1 WHERE NOT EXISTS (SELECT * FROM grid WHERE e >= n1)",
+			"SELECT rid FROM t1 WHERE EXISTS (SELECT a FROM `<-mm` WHERE a > 3)", "SELECT rid, (SELECT e FROM grid) AS g FROM t1", "SELECT rid FROM t1 WHERE n1 IN (SELECT e FROM grid)",
+			"SELECT rid FROM t1 WHERE EXISTS (SELECT e FROM `mix=>grid` WHERE e > 2)"})
+	}},
+	{"plain.fuse-async", false, false, func(c *fw.Case, d *richDoc, vf string) string {
+		// the "enrich the row" idiom: a fused object one of whose columns is a background call
+		return gen.Pick(c.R, []string{"SELECT rid, FUSE((SELECT ASYNC.VBG(s1) AS g, s1 AS town FROM dual)) FROM t1", "SELECT rid, FUSE((SELECT ASYNC.VBG(s1) AS g FROM dual)) AS place FROM t1",
+			"SELECT FUSE((SELECT ASYNC.VBG(n1) AS g, n2 AS h FROM dual)), rid FROM t1 WHERE n1 >= 0", "SELECT rid, FUSE((SELECT SPINASYNC.VBG(s1) AS g FROM dual)) FROM t1"})
 	}},
 	{"plain.null-rows", false, true, func(c *fw.Case, d *richDoc, vf string) string {
 		// a source array with NULL elements, read with and without an alias and as a join operand
